@@ -120,6 +120,26 @@ def check(rep, F, tier, replay=None):
         errs = mp.error_stores(F, fid)
         if bad or len(errs) < 2:
             rep.violation("OVF", key, "%s no longer turns a non-representable result into an error (unwrap-like calls: %s, Err exits: %d)" % (key, bad, len(errs)), {})
+    # WIDE-interm: only the final conversion narrows
+    import re as _re
+    rep.rule("WIDE-interm", "inside Rational (the exact arithmetic the script fee and the reference-script fee are computed in) only the two final conversions to_bignum_ceil / to_bignum_floor call a fixed-width narrowing or checked primitive (as_u64, BigNum::checked_*, uN::checked_* / wrapping / saturating, try_from / try_into): an intermediate such as price numerator x execution units may exceed 64 bits while the rounded fee fits (577/10000 x 2^64-1), so narrowing it turns a representable fee into an 'overflow' error")
+    FINAL = ("Rational::to_bignum_ceil", "Rational::to_bignum_floor")
+    NARROW = _re.compile(r"(::as_u64|::as_int|::as_u32|::checked_\w+|::wrapping_\w+|::saturating_\w+|::overflowing_\w+|TryFrom<.*>>::try_from|TryInto<.*>>::try_into|::clamped_sub|num_traits::cast::ToPrimitive>::to_\w+)$")
+    n_r = 0
+    for fid_, fn_ in F.fns.items():
+        if not (fn_.get("self_adt") or "").endswith("rational::Rational") and not (fn_.get("parent_fn") or "").startswith("rational::"):
+            continue
+        if F.is_derived(fid_):
+            continue
+        n_r += 1
+        rep.inst("WIDE-interm")
+        key_ = F.key(fid_.split("::{closure")[0])
+        if key_ in FINAL:
+            continue
+        for c_ in F.calls(fid_):
+            if c_.to and NARROW.search(c_.to):
+                rep.violation("WIDE-interm", "%s|%s" % (key_, c_.to.rsplit("::", 1)[-1]), "%s narrows an intermediate of the exact fee arithmetic with %s (%s): the product / sum can exceed 64 bits although the final rounded fee fits, so min_script_fee / calculate_ex_units_ceil_cost fail with 'overflow' for prices and unit totals whose fee is representable" % (key_, c_.to, facts.loc_str(c_.loc, fn_)), {})
+    rep.floor("Rational methods inspected", 12, n_r)
     # AS-u64: the fallible narrowing the fee functions end with is exact: None iff negative or >= 2^64
     rep.rule("AS-u64", "BigInt::as_u64 (the conversion behind to_bignum_ceil / to_bignum_floor) answers Some for every non-negative value below 2^64: either it matches the u64-digit count (0 or 1 digit -> Some) or it compares bits() with a constant that admits exactly 64 bits")
     fid = find_fn(rep, F, "BigInt::as_u64")
